@@ -501,6 +501,93 @@ Section ModularityState.
         exists q. split; [f_equal; exact Hq|]. rewrite Eq. rewrite Hd. unfold modularity_abs.
         apply (qsum_ext). intros c _. reflexivity.
     Qed.
+    (* ---------------- total weight 0 (non-negative weights): 0/0, i.e. NaN ---------------- *)
+    Lemma qsum_nonneg_zero : forall l : list Q, (forall x, In x l -> 0 <= x) -> qsum l == 0 ->
+      forall x, In x l -> x == 0.
+    Proof.
+      induction l as [|a l IH]; intros Hpos Hz x Hx; [destruct Hx|]. cbn [qsum] in Hz.
+      assert (Ha : 0 <= a) by (apply Hpos; left; reflexivity).
+      assert (Hl : 0 <= qsum l).
+      { clear -Hpos. induction l as [|b l IHl]; cbn [qsum]; [lra|].
+        assert (0 <= b) by (apply Hpos; right; left; reflexivity).
+        assert (0 <= qsum l) by (apply IHl; intros y [Hy|Hy]; apply Hpos; [left; exact Hy|right; right; exact Hy]). lra. }
+      destruct Hx as [<-|Hx]; [lra|]. apply IH; [intros y Hy; apply Hpos; right; exact Hy|lra|exact Hx].
+    Qed.
+
+    Lemma wsel_zero (p : T * T * Q -> bool) :
+      (forall e, In e es -> 0 <= ww e) -> total_w es == 0 -> wsel p es == 0.
+    Proof.
+      intros Hpos Hz.
+      assert (Hall : forall e, In e es -> ww e == 0).
+      { intros e He. apply (qsum_nonneg_zero (map (@ww T) es)); [|exact Hz|apply in_map; exact He].
+        intros x Hx. apply in_map_iff in Hx. destruct Hx as (e0 & <- & H0). apply Hpos. exact H0. }
+      unfold wsel. generalize Hall. generalize es as l. induction l as [|e l IH]; intros Hl; [reflexivity|].
+      cbn [filter]. destruct (p e); cbn [map qsum].
+      - rewrite (Hl e (or_introl eq_refl)), IH by (intros e0 H0; apply Hl; right; exact H0). reflexivity.
+      - apply IH. intros e0 H0. apply Hl. right. exact H0.
+    Qed.
+
+    Lemma qsum_all_zero {X} (f : X -> Q) (l : list X) : (forall x, f x == 0) -> qsum (map f l) == 0.
+    Proof. intros H. induction l as [|x l IH]; cbn [map qsum]; [reflexivity|]. rewrite H, IH. reflexivity. Qed.
+
+    Lemma parts_all_zero dout din comms parts :
+      (forall c, total_w (subgraph_edges teqb es c) == 0) ->
+      (forall c, qsum (map dout c) == 0) -> (forall c, qsum (map din c) == 0) ->
+      Forall2 (part_rel dout din) comms parts ->
+      forallb (fun p : oq * oq * oq =>
+                 match p with
+                 | (Some w, Some a, Some b) => Qeq_bool w 0 && Qeq_bool a 0 && Qeq_bool b 0
+                 | _ => true
+                 end) parts = true.
+    Proof.
+      intros HW HO HI H. induction H as [|c [[w ods] ids] comms parts (Hw & Ho & Hi) _ IH]; [reflexivity|].
+      cbn [forallb]. rewrite IH, andb_true_r.
+      destruct Hw as (w' & -> & Ew). destruct Ho as (o' & -> & Eo). destruct Hi as (i' & -> & Ei).
+      rewrite (proj2 (Qeq_bool_iff w' 0)) by (rewrite Ew; apply HW).
+      rewrite (proj2 (Qeq_bool_iff o' 0)) by (rewrite Eo; apply HO).
+      rewrite (proj2 (Qeq_bool_iff i' 0)); [reflexivity|]. rewrite Ei. destruct (directed (sp g)); [apply HI|apply HO].
+    Qed.
+
+    Theorem modularity_state_zero comms gamma :
+      is_partition_model teqb (names g) comms = true ->
+      (forall e, In e es -> 0 <= ww e) -> total_w es == 0 ->
+      modularity teqb tltb g comms weighted gamma =
+      Ok (match comms with [] => Some 0 | _ => None end).
+    Proof.
+      intros Hip Hpos Hz. pose proof (partition_incl comms Hip) as Hinc.
+      assert (HW : forall c, total_w (subgraph_edges teqb es c) == 0).
+      { intros c. unfold total_w, subgraph_edges. apply (wsel_zero _ Hpos Hz). }
+      assert (HO : forall x, PartitionDef.out_deg teqb es x == 0) by (intros x; apply (wsel_zero _ Hpos Hz)).
+      assert (HI : forall x, PartitionDef.in_deg teqb es x == 0) by (intros x; apply (wsel_zero _ Hpos Hz)).
+      assert (HU : forall x, und_deg teqb es x == 0).
+      { intros x. unfold und_deg. rewrite !(wsel_zero _ Hpos Hz). reflexivity. }
+      unfold modularity. rewrite (is_partition_WF g comms W), Hip. cbn [bind negb].
+      destruct (directed (sp g)) eqn:Hd.
+      - destruct (out_map_ok "partitions.rs:97" "partitions.rs:101" Hd) as (od & Hod & Dod).
+        destruct (in_map_ok "partitions.rs:98" "partitions.rs:102" Hd) as (id & Hid & Did).
+        rewrite Hod. cbn [bind]. rewrite Hid. cbn [bind].
+        destruct (parts_ok "partitions.rs:125" "partitions.rs:127" od id _ _ Dod Did comms Hinc)
+          as (parts & Hparts & Hrel).
+        rewrite Hd in Hparts. cbv zeta in Hparts. cbn [bind] in Hparts. rewrite Hparts. cbn [bind].
+        destruct (oq_sum_dmap od _ _ Dod) as (mq & Hm & Em). rewrite Hm.
+        rewrite (proj2 (Qeq_bool_iff mq 0)) by (rewrite Em; apply qsum_all_zero; exact HO).
+        destruct comms as [|c0 comms']; [reflexivity|].
+        pose proof (parts_all_zero _ _ _ _ HW (fun c => qsum_all_zero _ c HO) (fun c => qsum_all_zero _ c HI) Hrel) as Hpz.
+        match goal with |- (if ?b then _ else _) = _ => replace b with true by (symmetry; exact Hpz) end.
+        reflexivity.
+      - destruct deg_map_ok as (dg & Hdg & Ddg). rewrite Hdg. cbn [bind].
+        destruct (parts_ok "partitions.rs:125" "partitions.rs:127" dg dg _ _ Ddg Ddg comms Hinc)
+          as (parts & Hparts & Hrel).
+        rewrite Hd in Hparts. cbv zeta in Hparts. cbn [bind] in Hparts. rewrite Hparts. cbn [bind].
+        destruct (oq_sum_dmap dg _ _ Ddg) as (ds & Hs & Es). rewrite Hs. cbn [oq2].
+        assert (Ez : ds / 2 == 0).
+        { rewrite Es, (qsum_all_zero _ (names g) HU). reflexivity. }
+        rewrite (proj2 (Qeq_bool_iff (ds / 2) 0) Ez).
+        destruct comms as [|c0 comms']; [reflexivity|].
+        pose proof (parts_all_zero _ _ _ _ HW (fun c => qsum_all_zero _ c HU) (fun c => qsum_all_zero _ c HU) Hrel) as Hpz.
+        match goal with |- (if ?b then _ else _) = _ => replace b with true by (symmetry; exact Hpz) end.
+        reflexivity.
+    Qed.
   End OnState.
 
   (* ---------------- totality: on a partition the call never returns an Err ---------------- *)
@@ -645,6 +732,79 @@ Section ModularityState.
         rewrite Hd in Hparts. cbn [bind] in Hparts. rewrite Hparts. cbn [bind].
         repeat match goal with |- context [match ?x with _ => _ end] => destruct x end; discriminate.
     Qed.
+
+    (* ---------------- an unweighted (NaN) edge under weighted = true: the result is NaN ---------------- *)
+    Lemma wsum_none : forall l : list weight, In None l -> wsum l = None.
+    Proof.
+      induction l as [|w l IH]; intros H; [destruct H|]. cbn [wsum]. destruct H as [->|H]; [reflexivity|].
+      rewrite (IH H). destruct w; reflexivity.
+    Qed.
+
+    Lemma oq_sum_none : forall l : list oq, In None l -> oq_sum l = None.
+    Proof.
+      induction l as [|w l IH]; intros H; [destruct H|]. cbn [oq_sum]. destruct H as [->|H]; [reflexivity|].
+      rewrite (IH H). destruct w; reflexivity.
+    Qed.
+
+    Lemma nan_entry (r : list (T * weight)) x :
+      map fst r = names g -> In x (names g) -> (forall y v, In (y, v) r -> y = x -> v = None) ->
+      In None (map snd (w_values (T:=T) r)).
+    Proof.
+      intros Hk Hx Hp. rewrite <- Hk in Hx. apply in_map_iff in Hx. destruct Hx as ((y & v) & Ey & Hin).
+      cbn [fst] in Ey. subst y. rewrite (Hp x v Hin eq_refl) in Hin.
+      unfold w_values. rewrite map_map. apply in_map_iff. exists (x, None). split; [reflexivity|exact Hin].
+    Qed.
+
+    Theorem modularity_nan comms gamma :
+      is_partition_model teqb (names g) comms = true ->
+      (exists e, In e (all_edges g) /\ ew e = None) ->
+      modularity teqb tltb g comms true gamma = Ok None.
+    Proof.
+      intros Hip (e & He & Hwe).
+      destruct (endpoints_in_names teqb tltb teqb_spec g e W He) as (Hu & _).
+      assert (Hinc : forall c, In c comms -> incl c (names g)).
+      { intros c Hc x Hx. apply (is_partition_model_char teqb teqb_spec) in Hip. destruct Hip as (_ & Hi & _).
+        apply Hi. apply in_concat. exists c. split; assumption. }
+      assert (Hne : comms <> []).
+      { intros ->. apply (is_partition_model_char teqb teqb_spec) in Hip. destruct Hip as (_ & _ & Hl).
+        cbn in Hl. destruct (names g); [destruct Hu|discriminate]. }
+      unfold modularity. rewrite (is_partition_WF g comms W), Hip. cbn [bind negb].
+      destruct (directed (sp g)) eqn:Hd.
+      - unfold get_weighted_out_degree_for_all_nodes. rewrite Hd. cbn [negb].
+        destruct (for_all_nodes_rel g (get_node_weighted_out_degree teqb)
+                    (fun x v => x = eu e -> v = None)) as (r & Hr & Hk & Hp).
+        { intros x Hx. unfold get_node_weighted_out_degree.
+          destruct (get_out_edges_for_node_spec teqb tltb teqb_spec g x W Hd Hx) as (l & Hl & Hperm).
+          rewrite Hl. cbn [opt_wsum]. eexists. split; [reflexivity|]. intros ->. apply wsum_none.
+          apply in_map_iff. exists e. split; [exact Hwe|]. apply (Permutation_in _ (Permutation_sym Hperm)).
+          unfold QueryOk.out_edges_of. apply filter_In. split; [exact He|apply teqb_spec; reflexivity]. }
+        rewrite Hr. cbn [unwrap_res bind].
+        destruct (in_keys true "partitions.rs:98" "partitions.rs:102" Hd) as (id & Hid & Kid).
+        rewrite Hid. cbn [bind].
+        destruct (parts_total true "partitions.rs:125" "partitions.rs:127" (w_values r) id
+                    ltac:(rewrite w_values_keys; exact Hk) Kid comms Hinc) as (parts & Hparts).
+        rewrite Hd in Hparts. rewrite Hparts. cbn [bind].
+        rewrite (oq_sum_none _ (nan_entry r (eu e) Hk Hu (fun y v Hin Hy => Hp y v Hin Hy))).
+        destruct comms; [congruence|reflexivity].
+      - unfold get_weighted_degree_for_all_nodes.
+        destruct (for_all_nodes_rel g (get_node_weighted_degree teqb tltb)
+                    (fun x v => x = eu e -> v = None)) as (r & Hr & Hk & Hp).
+        { intros x Hx. unfold get_node_weighted_degree.
+          destruct (get_edges_for_node_spec teqb tltb teqb_spec tltb_total g x W Hx) as (l & Hl & Hperm).
+          rewrite Hl. eexists. split; [reflexivity|]. intros ->.
+          assert (Hn : wsum (map ew l) = None).
+          { apply wsum_none. apply in_map_iff. exists e. split; [exact Hwe|].
+            apply (Permutation_in _ (Permutation_sym Hperm)). unfold QueryOk.touching. apply filter_In.
+            split; [exact He|]. rewrite (proj2 (teqb_spec (eu e) (eu e)) eq_refl). reflexivity. }
+          rewrite Hn. reflexivity. }
+        rewrite Hr. cbn [bind].
+        destruct (parts_total true "partitions.rs:125" "partitions.rs:127" (w_values r) (w_values r)
+                    ltac:(rewrite w_values_keys; exact Hk) ltac:(rewrite w_values_keys; exact Hk) comms Hinc)
+          as (parts & Hparts).
+        rewrite Hd in Hparts. cbn [bind] in Hparts. rewrite Hparts. cbn [bind].
+        rewrite (oq_sum_none _ (nan_entry r (eu e) Hk Hu (fun y v Hin Hy => Hp y v Hin Hy))).
+        cbn [oq2]. destruct comms; [congruence|reflexivity].
+    Qed.
   End Total.
 
   (* ---------------- end to end, on every coherent state ---------------- *)
@@ -679,6 +839,24 @@ Section ModularityState.
     intros W Hc Hn. apply modularity_rejects. rewrite (is_partition_WF g comms W). f_equal.
     apply (not_partition_rejected teqb teqb_spec _ _ (wf_nodup _ _ _ W) Hc Hn).
   Qed.
+
+  (* the degenerate values: total weight 0 (non-negative weights) is 0/0 = NaN; an edge without a
+     weight under weighted = true makes every term NaN *)
+  Theorem modularity_WF_zero (g : gstate) comms weighted gamma es :
+    WF g -> wedges_of weighted (get_all_edges g) = Some es ->
+    is_partition_model teqb (names g) comms = true ->
+    (forall e, In e es -> 0 <= ww e) -> total_w es == 0 ->
+    modularity teqb tltb g comms weighted gamma = Ok (match comms with [] => Some 0 | _ => None end).
+  Proof.
+    intros W Hes Hip Hpos Hz. apply wedges_of_Some in Hes. destruct Hes as (-> & Hreal).
+    apply (modularity_state_zero g weighted W Hreal comms gamma Hip Hpos Hz).
+  Qed.
+
+  Theorem modularity_WF_nan (g : gstate) comms gamma :
+    WF g -> is_partition_model teqb (names g) comms = true ->
+    (exists e, In e (get_all_edges g) /\ ew e = None) ->
+    modularity teqb tltb g comms true gamma = Ok None.
+  Proof. intros W Hip He. apply (modularity_nan g W comms gamma Hip He). Qed.
 
   (* NotAPartition exactly when the family is not a partition (and no other error kind at all) *)
   Theorem modularity_WF_err_iff (g : gstate) comms weighted gamma k :
